@@ -203,7 +203,65 @@ func (ex *Exec) loadPath(o *Obj, path []int) Value {
 	return v
 }
 
+// selectable: every element is a scalar term or a concrete string.
+func selectable(elems []*Obj) bool {
+	for _, o := range elems {
+		switch v := o.V.(type) {
+		case *smt.Term:
+		case *Str:
+			if v.K != strConc {
+				return false
+			}
+		default:
+			return false
+		}
+	}
+	return true
+}
+
+// selLoad: the value of a[i] for symbolic i as a case distinction.
+func (ex *Exec) selLoad(p SelPtr) Value {
+	tb := ex.tb()
+	w := p.Idx.S.W
+	if _, isTerm := p.Elems[0].V.(*smt.Term); isTerm {
+		res := p.Elems[len(p.Elems)-1].V.(*smt.Term)
+		for k := len(p.Elems) - 2; k >= 0; k-- {
+			res = tb.Ite(tb.Eq(p.Idx, tb.Const(uint64(k), w)), p.Elems[k].V.(*smt.Term), res)
+		}
+		return res
+	}
+	// concrete strings: a byte sequence whose length and bytes are case distinctions
+	maxLen := 0
+	for _, o := range p.Elems {
+		if n := len(o.V.(*Str).C); n > maxLen {
+			maxLen = n
+		}
+	}
+	sel := func(f func(s string) *smt.Term) *smt.Term {
+		res := f(p.Elems[len(p.Elems)-1].V.(*Str).C)
+		for k := len(p.Elems) - 2; k >= 0; k-- {
+			res = tb.Ite(tb.Eq(p.Idx, tb.Const(uint64(k), w)), f(p.Elems[k].V.(*Str).C), res)
+		}
+		return res
+	}
+	ln := sel(func(s string) *smt.Term { return ex.c64(uint64(len(s))) })
+	bo := ex.newByteObjZero(ex.c64(uint64(maxLen)))
+	for j := 0; j < maxLen; j++ {
+		jj := j
+		ex.storeByte(bo, ex.c64(uint64(j)), sel(func(s string) *smt.Term {
+			if jj < len(s) {
+				return tb.Const(uint64(s[jj]), 8)
+			}
+			return tb.Const(0, 8)
+		}))
+	}
+	return &Str{K: strSeq, Snap: bo.snapshot(), Off: ex.c64(0), Len: ln}
+}
+
 func (ex *Exec) load(p Value) Value {
+	if sp, ok := p.(SelPtr); ok {
+		return ex.selLoad(sp)
+	}
 	switch p := p.(type) {
 	case Ptr:
 		if p.Obj == nil {
@@ -320,6 +378,10 @@ func (ex *Exec) checkWritable(frozen bool, id int, what string) {
 type mergeImpure struct{ what string }
 
 func (ex *Exec) store(p Value, nv Value) {
+	if sp, ok := p.(SelPtr); ok {
+		k := ex.concretize(sp.Idx, 1024, "index of a store into an array")
+		p = Ptr{Obj: sp.Elems[k]}
+	}
 	switch p := p.(type) {
 	case Ptr:
 		if p.Obj == nil {
@@ -976,6 +1038,9 @@ func (ex *Exec) indexAddr(x, idx Value, xt, it types.Type) Value {
 			n = a.Len
 		}
 		ex.boundsCheck(i, ex.c64(uint64(n)), "index of slice")
+		if !i.IsConst() && n > 1 && n <= 1024 && selectable(a.Vec.Elems[a.Off:a.Off+n]) {
+			return SelPtr{Elems: a.Vec.Elems[a.Off : a.Off+n], Idx: i}
+		}
 		k := ex.concretize(i, 64, "slice index")
 		return Ptr{Obj: a.Vec.Elems[a.Off+int(k)]}
 	case Ptr:
@@ -988,6 +1053,9 @@ func (ex *Exec) indexAddr(x, idx Value, xt, it types.Type) Value {
 			return BytePtr{BO: arr.BO, Idx: i}
 		case *GArr:
 			ex.boundsCheck(i, ex.c64(uint64(len(arr.Vec.Elems))), "index of array")
+			if !i.IsConst() && len(arr.Vec.Elems) > 1 && len(arr.Vec.Elems) <= 1024 && selectable(arr.Vec.Elems) {
+				return SelPtr{Elems: arr.Vec.Elems, Idx: i}
+			}
 			k := ex.concretize(i, 64, "array index")
 			return Ptr{Obj: arr.Vec.Elems[k]}
 		}
@@ -1011,6 +1079,9 @@ func (ex *Exec) index(x, idx Value, it types.Type) Value {
 		return ex.readByte(a.BO, i)
 	case *GArr:
 		ex.boundsCheck(i, ex.c64(uint64(len(a.Vec.Elems))), "index of array")
+		if !i.IsConst() && len(a.Vec.Elems) > 1 && len(a.Vec.Elems) <= 1024 && selectable(a.Vec.Elems) {
+			return ex.selLoad(SelPtr{Elems: a.Vec.Elems, Idx: i})
+		}
 		k := ex.concretize(i, 64, "array index")
 		return a.Vec.Elems[k].V
 	case *Str:
